@@ -98,6 +98,7 @@ def run(ctx):
 
     stage("specification encodings")
     # ---- step 2: inputs
+    big_tokens.clear()
     cases = []     # (kind, ty, t, bo, off, nf, bytes, expected tokens or None, expected length, big?)
     for (ty, t, bo, off, nf, toks, cls), so in zip(vals, spec_out):
         f = fields("x " + so)
@@ -108,8 +109,8 @@ def run(ctx):
         enc = bytes.fromhex(f["spec"]) if f["spec"] != "-" else b""
         pre = bytes((7 * i + 3) % 251 for i in range(off))
         if cls:
-            big_tokens[(ty, bo, off)] = toks
             cases.append(("big:" + cls, ty, t, bo, off, nf, pre + enc, " ".join(toks), len(enc), True))
+            big_tokens[len(cases) - 1] = toks
             # the FIRST length field of a big encoding (the big one): off by a little, and beyond the limit
             order = "big" if bo == "be" else "little"
             try:
@@ -124,6 +125,7 @@ def run(ctx):
                     b = bytearray(enc)
                     b[firstlen:firstlen + 4] = (nv & 0xFFFFFFFF).to_bytes(4, order)
                     cases.append(("big-corrupt:" + name, ty, t, bo, off, nf, pre + bytes(b) + tail, None, None, True))
+                    big_tokens[len(cases) - 1] = toks
             continue
         cases.append(("valid", ty, t, bo, off, nf, pre + enc, " ".join(toks), len(enc), False))
         suffix = bytes([r.randrange(256) for _ in range(r.choice([0, 1, 3, 8]))])
@@ -179,7 +181,7 @@ def run(ctx):
         for i in big_idx:
             c = cases[i // 3]
             op = ("VR", "UP", "UT")[i % 3]
-            if wg.model_cheap(op, c[3], big_tokens[(c[1], c[3], c[4])]):
+            if wg.model_cheap(op, c[3], big_tokens[i // 3]):
                 cheap.append(i)
         ok, out, err = wg.run_each(drv, [lines[i] for i in cheap], chunk=3)
         for i, o in zip(cheap, out):
@@ -372,7 +374,7 @@ def run(ctx):
                 % (per_type, ncat, len(classes), nglue))
 
 
-big_tokens = {}        # (type, byte order, offset) of a big case -> the value's tokens (to estimate the model's cost)
+big_tokens = {}        # index of a big case -> the tokens of the value its bytes were made from (to estimate the model's cost)
 
 
 def glue(ctx, exe, drv, thorough):
